@@ -11,6 +11,7 @@ import Driver.TBF
 import Driver.BufSync
 import Driver.Delay
 import Driver.RDL
+import Driver.Listener
 
 def main (args : List String) : IO UInt32 := do
   match args with
@@ -28,4 +29,5 @@ def main (args : List String) : IO UInt32 := do
   | ["bufsync"] => Driver.runComponent Driver.BufSync.comp; return 0
   | ["delay"] => Driver.runComponent Driver.Delay.comp; return 0
   | ["rdl"] => Driver.runComponent Driver.RDL.comp; return 0
+  | ["listener"] => Driver.runComponent Driver.Listener.comp; return 0
   | _ => IO.eprintln "usage: vdrv <component> [args]"; return 2
